@@ -1214,7 +1214,18 @@ def r1214(ctx):
                     for k, v in zip(n.keys, n.values):
                         if isinstance(k, ast.Constant) and isinstance(k.value, str) and "nsteps" in k.value.lower():
                             found.append((v, n))
-                if cand is not None and "maxlen" in ast.unparse(cand):
+                if cand is not None and isinstance(cand, ast.Name):
+                    # a budget held in a local (`n_md_steps = self.subcycles * path.maxlen`)
+                    from ..flow import deref as _deref0, flow_of as _flow_of0
+                    from ..loader import enclosing_stmt as _encl0
+                    try:
+                        _fl0 = _flow_of0(f)
+                        _c2, _ = _deref0(_fl0, cand, _fl0.cfg.node_of(_encl0(cand)))
+                    except Exception:
+                        _c2 = cand
+                    if "maxlen" in ast.unparse(_c2):
+                        found.append((cand, n))
+                elif cand is not None and "maxlen" in ast.unparse(cand):
                     found.append((cand, n))
             # CP2K: (path.maxlen, self.subcycles) handed separately to the input writer, multiplied there
             for c in [c for c in walk_local(f) if isinstance(c, ast.Call) and last_name(c) in ("write_for_run_vel", "write_for_continue", "write_for_step_vel")]:
@@ -1256,6 +1267,67 @@ def r1214(ctx):
                         construct=f"{q}: step budget {txt}")
 
 
+def r1219(ctx):
+    """Propagation stops with success at the first frame *outside* the interfaces: in add_to_path
+    every `success = True` store is guarded by `order < left` or `order > right` of the last
+    frame, both strict (a frame on an interface is not outside), one store per side."""
+    from ..util import oriented
+    rid = "R-12.19"
+    f = ctx.tree.func(ENGBASE, "EngineBase.add_to_path")
+    params = [a.arg for a in f.args.args]
+    if len(params) < 4:
+        raise AnalysisError("R-12.19: add_to_path does not take (path, phase_point, left, right)")
+    off = 1 if params[0] in ("self", "cls") else 0
+    pth, pp, L, R = params[off:off + 4]
+    cfg = cfg_of(f)
+    sides = {}
+    rets = [r for r in walk_local(f) if isinstance(r, ast.Return) and isinstance(r.value, ast.Tuple) and len(r.value.elts) == 4 and isinstance(r.value.elts[1], ast.Name)]
+    if not rets or len({r.value.elts[1].id for r in rets}) != 1:
+        raise AnalysisError("R-12.19: add_to_path does not return (status, success, stop, add) with one success variable")
+    sv = rets[0].value.elts[1].id
+    stores = [st for st in walk_local(f) if isinstance(st, ast.Assign) and any(isinstance(t, ast.Name) and t.id == sv for t in st.targets) and isinstance(st.value, ast.Constant) and st.value.value is True]
+    if not stores:
+        raise AnalysisError("R-12.19: no `success = True` store in add_to_path")
+    for st in stores:
+        found = False
+        for e, truth, bn in cfg.guards(cfg.node_of(st)):
+            o = oriented(e, lambda x: not (isinstance(x, ast.Name) and x.id in (L, R)))
+            if o is None or not (isinstance(o[2], ast.Name) and o[2].id in (L, R)):
+                continue
+            lhs, op, rhs = o
+            if isinstance(lhs, ast.Name):
+                # the last frame's order held in a local (`last_order = path.phasepoints[-1].order[0]`)
+                try:
+                    _fl = flow_of(f)
+                    lhs, _ = deref(_fl, lhs, bn)
+                except Exception:
+                    pass
+            txt = ast.unparse(lhs)
+            if not (".order[0]" in txt and (txt.startswith(f"{pth}.phasepoints[-1]") or txt.startswith(pp + "."))):
+                continue
+            side = "left" if rhs.id == L else "right"
+            # what the guard says about the frame on this path
+            rel = {(ast.Lt, True): "<", (ast.GtE, False): "<", (ast.LtE, True): "<=", (ast.Gt, False): "<=",
+                   (ast.Gt, True): ">", (ast.LtE, False): ">", (ast.GtE, True): ">=", (ast.Lt, False): ">="}.get((type(op), truth))
+            if rel is None:
+                continue
+            want = "<" if side == "left" else ">"
+            if rel == want:
+                if (side, "exit") not in sides:
+                    sides[(side, "exit")] = st
+                    found = True
+                    ctx.ok(rid, st, f"add_to_path: success on the {side} side only for a frame with order {want} {side} (strictly outside)")
+            elif rel == want + "=":
+                found = True
+                sides[(side, "exit")] = st
+                ctx.bad(rid, st, f"add_to_path reports success and stops for a frame with order {rel} {side}: a frame exactly on the {side} interface is not outside the interfaces (the sibling test on the other side and the moves that continue such a path treat it as inside), so the path is cut short and reported as completed", construct=f"add_to_path: success under order {rel} {side}")
+            # guards that put the frame on the inner side (the elif of the other test) are not exits
+        if not found and not any(v is st for v in sides.values()):
+            ctx.bad(rid, st, "add_to_path sets success = True on a path that is not guarded by the last frame lying outside one of the interfaces", construct="add_to_path: unguarded success")
+    if {k[0] for k in sides} != {"left", "right"}:
+        ctx.bad(rid, f, f"add_to_path reports success on {sorted(k[0] for k in sides)} only: a frame beyond the other interface does not end the propagation", construct="add_to_path: one-sided stop")
+
+
 def run(ctx):
     ctx.rule("R-12.9", "polling loops read the trajectory once more after the external program was observed finished (abstract interpretation over the loop's counter and the process state)", floor=2)
     ctx.rule("R-12.1", "every frame goes through add_to_path; stop tested before any further append; true edge ends all frame loops; returned success is add_to_path's", floor=5)
@@ -1267,6 +1339,8 @@ def run(ctx):
     ctx.rule("R-12.7", "every sleeping wait loop observes the external process", floor=6)
     ctx.rule("R-12.8", "frames handed to the engines by the on-the-fly readers do not share arrays (a frame's box and coordinates are its own)", floor=3)
     ctx.rule("R-12.15", "the configuration an engine starts from after a velocity reversal is the phase point itself: _reverse_velocities writes positions, box and identities exactly as read (shared with C19 R-19.5)", floor=5)
+    ctx.rule("R-12.19", "the shared stop rule reports success exactly for a frame strictly outside the interfaces (order < left, order > right), once per side", floor=2)
+    ctx.attempt(r1219, ctx)
     ctx.rule("R-12.14", "step budget: every engine runs path.maxlen * subcycles MD steps (sibling agreement, monomial form)", floor=5)
     ctx.rule("R-12.13", "the TRR frames the GROMACS engine consumes while mdrun runs are complete frames: reads dominated by fresh size guards, bytes_read advanced by each returned count (shared with C13 R-13.3)", floor=3)
     ctx.rule("R-12.12", "frame indices of configuration references are never tested by truthiness (index 0 is a frame)", floor=5)
@@ -1317,6 +1391,13 @@ def run(ctx):
 
 
 VARIANTS = [
+    K("c12-keep-stop-tests-on-a-local", ENGBASE, "        if path.phasepoints[-1].order[0] < left:\n", "        last_order = path.phasepoints[-1].order[0]\n        if left > last_order:\n"),
+    B("c12-stop-on-the-left-interface", ENGBASE, "        if path.phasepoints[-1].order[0] < left:", "        if path.phasepoints[-1].order[0] <= left:", "R-12.19", control=True, why="seeded C12_j"),
+    B("c12-stop-on-the-right-interface", ENGBASE, "        elif path.phasepoints[-1].order[0] > right:", "        elif path.phasepoints[-1].order[0] >= right:", "R-12.19"),
+    K("c12-keep-stop-tests-mirrored", ENGBASE, "        if path.phasepoints[-1].order[0] < left:", "        if left > path.phasepoints[-1].order[0]:"),
+    K("c12-keep-stop-test-negated", ENGBASE, "        elif path.phasepoints[-1].order[0] > right:", "        elif not path.phasepoints[-1].order[0] <= right:"),
+    K("c12-keep-ase-budget-local", ASE, "        for i in range(self.subcycles * path.maxlen):", "        n_md_steps = self.subcycles * path.maxlen\n        for i in range(n_md_steps):"),
+    B("c12-ase-budget-local-one-short", ASE, "        for i in range(self.subcycles * path.maxlen):", "        n_md_steps = self.subcycles * (path.maxlen - 1)\n        for i in range(n_md_steps):", "R-12.14"),
     B("c12-ase-forces-only-read-for-written-frames", ASE, "            energy = self.calc.results[\"energy\"]\n            forces = self.calc.results[\"forces\"]\n            stress = self.calc.results.get(\"stress\", None)\n            if (i) % (self.subcycles) == 0:\n", "            if (i) % (self.subcycles) == 0:\n                energy = self.calc.results[\"energy\"]\n                forces = self.calc.results[\"forces\"]\n                stress = self.calc.results.get(\"stress\", None)\n", "R-12.18", control=True, why="seeded C12_i"),
     B("c12-cp2k-frames-rebound-per-poll", CP2K, "                    pos_traj += pos_reader.read_and_process_content()\n                    vel_traj += vel_reader.read_and_process_content()", "                    pos_traj = pos_reader.read_and_process_content()\n                    vel_traj = vel_reader.read_and_process_content()", "R-12.17", control=True, why="seeded C12_g"),
     K("c12-keep-cp2k-frames-extend", CP2K, "                    pos_traj += pos_reader.read_and_process_content()\n                    vel_traj += vel_reader.read_and_process_content()", "                    pos_traj.extend(pos_reader.read_and_process_content())\n                    vel_traj.extend(vel_reader.read_and_process_content())"),
